@@ -4,7 +4,7 @@ from vlib.core import Case
 
 ID = "C08"
 LEAN_MODULE = "Ctrmml.Properties.C08"
-THEOREMS = ["C08_delay_encoding", "C08_no_overflow", "C08_export_wellformed", "C08_gd3_eleven_strings"]
+THEOREMS = ["C08_delay_encoding", "C08_no_overflow", "C08_stream_parses", "C08_ctor_header"]
 LEVEL = "proof"
 STREAM = "vgmw.ops+vgmsong"
 CHUNK = 40
